@@ -47,15 +47,21 @@ fn run_search(b: &mut Board, ctx: &mut SearchContext, g: &mut MoveGenerator, poo
 // ======================================================================================= C07
 
 #[derive(Clone)]
-struct C07Case { p: Pos, tag: String, depth: u8, pool: usize, via_game: bool, reuse: bool }
+struct C07Case { p: Pos, tag: String, depth: u8, pool: usize, via_game: bool, reuse: bool, history_state: u8 }
 
 fn c07_one(ctx: &Ctx, c: &C07Case, shared: &Mutex<(SearchContext, MoveGenerator)>) {
     let p = &c.p;
     let legal = p.legal_moves();
     let rk: Vec<MoveKey> = legal.iter().map(rkey).collect();
-    let replay = json!({"fen": p.to_fen(), "depth": c.depth, "pool": c.pool, "via_game": c.via_game, "reused_context": c.reuse, "tag": c.tag});
+    let replay = json!({"fen": p.to_fen(), "depth": c.depth, "pool": c.pool, "via_game": c.via_game, "reused_context": c.reuse, "tag": c.tag, "history_state": c.history_state});
     let pool = mon::pool_with_session(c.pool, None);
     let mut b = to_engine(p);
+    // reachable states in which the game is drawn by history although moves exist: the search must still answer
+    match c.history_state {
+        1 => { b.push_halfmove_clock((100 + c.depth as u16 * 7) as _); ctx.count("roots_with_half_move_clock_at_or_beyond_100", 1); }
+        2 => { for _ in 0..3 { b.count_current_position(); } ctx.count("roots_registered_three_times", 1); }
+        _ => {}
+    }
     let (res, visited, changed): (Result<ChessMove, String>, Option<usize>, Option<String>);
     if c.via_game {
         let mut game = Game::from_board(b.clone(), c.depth);
@@ -121,16 +127,17 @@ pub fn c07(o: &Opts) -> i32 {
         let legal = p.legal_moves().len();
         let special = legal <= 1 || p.in_check(p.turn);
         let maxd: u8 = if p.piece_count() > 16 { if q { 2 } else { 3 } } else if q { 3 } else { 4 };
-        if special { for d in 0..=maxd.min(3) { cases.push(C07Case { p: p.clone(), tag: t.clone(), depth: d, pool: *r.pick(&pools), via_game: d % 2 == 1, reuse: false }); } }
+        if special { for d in 0..=maxd.min(3) { cases.push(C07Case { p: p.clone(), tag: t.clone(), depth: d, pool: *r.pick(&pools), via_game: d % 2 == 1, reuse: false, history_state: 0 }); } }
         else {
             let d = 1 + r.below(maxd as usize) as u8;
-            cases.push(C07Case { p: p.clone(), tag: t.clone(), depth: d, pool: *r.pick(&pools), via_game: r.chance(0.3), reuse: r.chance(0.3) });
-            if r.chance(0.15) { cases.push(C07Case { p: p.clone(), tag: t.clone(), depth: 0, pool: 2, via_game: r.chance(0.5), reuse: false }); }
+            cases.push(C07Case { p: p.clone(), tag: t.clone(), depth: d, pool: *r.pick(&pools), via_game: r.chance(0.3), reuse: r.chance(0.3), history_state: 0 });
+            if r.chance(0.2) { cases.push(C07Case { p: p.clone(), tag: t.clone(), depth: 1 + r.below(2) as u8, pool: *r.pick(&pools), via_game: r.chance(0.5), reuse: false, history_state: 1 + r.below(2) as u8 }); }
+            if r.chance(0.15) { cases.push(C07Case { p: p.clone(), tag: t.clone(), depth: 0, pool: 2, via_game: r.chance(0.5), reuse: false, history_state: 0 }); }
         }
     }
     if let Some(path) = &o.replay {
         let v = load_replay(path);
-        cases = vec![C07Case { p: Pos::from_fen(v["fen"].as_str().unwrap_or("")).unwrap(), tag: "replay".into(), depth: v["depth"].as_u64().unwrap_or(1) as u8, pool: v["pool"].as_u64().unwrap_or(1) as usize, via_game: v["via_game"].as_bool().unwrap_or(false), reuse: false }];
+        cases = vec![C07Case { p: Pos::from_fen(v["fen"].as_str().unwrap_or("")).unwrap(), tag: "replay".into(), depth: v["depth"].as_u64().unwrap_or(1) as u8, pool: v["pool"].as_u64().unwrap_or(1) as usize, via_game: v["via_game"].as_bool().unwrap_or(false), reuse: false, history_state: v["history_state"].as_u64().unwrap_or(0) as u8 }];
     }
     let shared = Mutex::new((SearchContext::new(2), MoveGenerator::new()));
     par::for_each(&cases, 4, |_i, c| { if ctx.budget_used() < 0.95 { c07_one(&ctx, c, &shared) } else { ctx.count("cases_skipped_for_time_budget", 1) } },
